@@ -8,6 +8,7 @@ import (
 	"strings"
 
 	"golang.org/x/tools/go/ssa"
+	"golang.org/x/tools/go/ssa/ssautil"
 
 	"mtverif/internal/core"
 	"mtverif/internal/fde"
@@ -42,6 +43,8 @@ type concModel struct {
 	callers      map[*ssa.Function][]*ssa.Function
 	requires     map[*ssa.Function]int
 	initOnlyMemo map[*ssa.Function]int
+	sitesMemo    map[*ssa.Function][]*ssa.Call
+	viaWrapper   map[*ssa.Function]bool
 }
 
 func getConc(c *core.Ctx) *concModel {
@@ -148,7 +151,28 @@ func (m *concModel) orgS(v ssa.Value, depth int, busy map[ssa.Value]bool) origin
 		return oFresh
 	case *ssa.Const:
 		return oFresh // nil
-	case *ssa.Parameter, *ssa.FreeVar:
+	case *ssa.Parameter:
+		// a function all of whose calls are known static calls: the worst origin of the argument over the call sites
+		if sites := m.staticSites(x.Parent()); sites != nil {
+			idx := -1
+			for i, p := range x.Parent().Params {
+				if p == x {
+					idx = i
+				}
+			}
+			worst := oFresh
+			for _, call := range sites {
+				if idx < 0 || idx >= len(call.Call.Args) {
+					return oParam
+				}
+				if o := m.orgS(call.Call.Args[idx], depth+3, busy); o > worst {
+					worst = o
+				}
+			}
+			return worst
+		}
+		return oParam
+	case *ssa.FreeVar:
 		return oParam
 	case *ssa.Global:
 		return oGlobal
@@ -217,6 +241,21 @@ func (m *concModel) orgS(v ssa.Value, depth int, busy map[ssa.Value]bool) origin
 		if f := x.Call.StaticCallee(); f != nil && m.freshRet[f] {
 			return oCallFresh
 		}
+		// a slice-returning function of the package: the worst origin of what it returns
+		if f := x.Call.StaticCallee(); f != nil && f.Blocks != nil && f.Signature.Results().Len() == 1 && m.inFs(f) {
+			if _, isSl := f.Signature.Results().At(0).Type().Underlying().(*types.Slice); isSl {
+				worst := oFresh
+				for _, r := range core.Returns(f) {
+					if o := m.orgS(spilled(r, 0), depth+3, busy); o > worst {
+						worst = o
+					}
+				}
+				if worst == oFresh {
+					return oCallFresh
+				}
+				return worst
+			}
+		}
 		return oUnknown
 	case *ssa.Phi:
 		worst := oFresh
@@ -240,6 +279,83 @@ func (m *concModel) orgS(v ssa.Value, depth int, busy map[ssa.Value]bool) origin
 		return oUnknown
 	}
 	return oUnknown
+}
+
+func (m *concModel) inFs(f *ssa.Function) bool {
+	for _, g := range m.fs {
+		if g == f {
+			return true
+		}
+	}
+	return false
+}
+
+// staticSites returns every call of f when f can only be reached by static
+// calls from the package (unexported, never used as a value, no interface
+// method of that name is invoked anywhere in the package); nil otherwise.
+func (m *concModel) staticSites(f *ssa.Function) []*ssa.Call {
+	if f == nil || f.Object() == nil || f.Object().Exported() || !m.inFs(f) {
+		return nil
+	}
+	if r, ok := m.sitesMemo[f]; ok {
+		return r
+	}
+	if m.sitesMemo == nil {
+		m.sitesMemo = map[*ssa.Function][]*ssa.Call{}
+	}
+	m.sitesMemo[f] = nil
+	if m.viaWrapper == nil {
+		// functions reached from synthetic wrappers (bound method values, thunks): their callers are unknown
+		m.viaWrapper = map[*ssa.Function]bool{}
+		for g := range ssautil.AllFunctions(m.pkg.Prog) {
+			if g.Synthetic == "" || g.Blocks == nil || (g.Name() == "init" && g.Pkg != nil) {
+				continue
+			}
+			for _, b := range g.Blocks {
+				for _, in := range b.Instrs {
+					if ci, ok := in.(ssa.CallInstruction); ok {
+						if h := ci.Common().StaticCallee(); h != nil {
+							m.viaWrapper[h] = true
+						}
+					}
+				}
+			}
+		}
+	}
+	if m.viaWrapper[f] {
+		return nil
+	}
+	var sites []*ssa.Call
+	for _, g := range m.fs {
+		for _, b := range g.Blocks {
+			for _, in := range b.Instrs {
+				if ci, ok := in.(ssa.CallInstruction); ok {
+					if ci.Common().IsInvoke() && ci.Common().Method.Name() == f.Name() {
+						return nil
+					}
+					if ci.Common().StaticCallee() == f {
+						call, isCall := in.(*ssa.Call)
+						if !isCall {
+							return nil // go / defer
+						}
+						sites = append(sites, call)
+					}
+				}
+				for _, op := range in.Operands(nil) {
+					if *op == ssa.Value(f) {
+						if call, ok := in.(*ssa.Call); !ok || call.Call.Value != ssa.Value(f) {
+							return nil // used as a value
+						}
+					}
+				}
+			}
+		}
+	}
+	if len(sites) == 0 {
+		return nil
+	}
+	m.sitesMemo[f] = sites
+	return sites
 }
 
 func allocAddressTaken(al *ssa.Alloc) bool {
@@ -863,7 +979,10 @@ var ruleSnapshot = &core.Rule{ID: "R06.6", Min: 6,
 					if held != 2 {
 						continue
 					}
-					if ci, ok := in.(ssa.CallInstruction); ok && !core.IsBuiltin(ci.Common(), "append") && !core.IsBuiltin(ci.Common(), "len") {
+					if name, _ := m.muCall(in); name != "" {
+						continue // a deferred unlock is registered here, it does not run here
+					}
+					if ci, ok := in.(ssa.CallInstruction); ok && !core.IsBuiltin(ci.Common(), "append") && !core.IsBuiltin(ci.Common(), "len") && !core.IsBuiltin(ci.Common(), "copy") {
 						s.Bad(fmt.Sprintf("%s: call inside the write region", core.FName(f)), c.Pos(in.Pos()), "call while holding the write lock (unbounded blocking of all detections, possible re-entry)")
 					}
 				}
